@@ -2,31 +2,44 @@
 
 Proof: lean/PGA/Props/C02.lean about the model PGA/Model/Scheme.lean (the decomposition logic of Scheme.py above the
 matcher) — `getDescriptors` equals the declarative reading of the scheme for every molecule size and every match list;
-remaps of chain-free tables are the linear substitution, independent of key order.  The matcher below it is C08.
-Tie: GroupLibrary.GetDescriptors(smiles) vs the model driver fed with a graph normalised independently of the repo's
-code; per-atom centre/peripheral names compared through the guarded hook.  Oracle: implementation vs the declarative
-interpretation written from the property text.
+remaps of chain-free tables are the linear substitution, independent of key order — and lean/PGA/Props/C02Full.lean about
+the end-to-end model PGA/Model/Decompose.lean (`decompose` = Benson perception, reader, matcher of C08, decomposition):
+with C08's matcher theorem plugged in, `decompose S m` equals the declared decomposition in which every pattern's matches
+are exactly its embeddings.
+Ties: GroupLibrary.GetDescriptors(smiles) vs (a) the model above the matcher fed with the implementation's match lists and
+(b) the end-to-end model fed with the raw graph (normalised independently of the repo's code, not aromatised), the parse
+trees of the scheme's pattern texts and the remap table; per-atom names and the aromatised graph compared through the
+guarded hook.  Oracles: implementation vs the declarative interpretation written from the property text, with the
+implementation's matcher and — independently of it — with every pattern read as the set of its embeddings (lib_embeds).
 """
 import json, collections
 from fractions import Fraction
 from . import common, lib_scheme as S, lib_molgen as G
 
-PROPS = ['PGA.Props.C02']
-GEN = []
+PROPS = ['PGA.Props.C02', 'PGA.Props.C02Full']
+GEN = ['Chars', 'MolQuery']
 OBLIGATIONS = ['PGA.Scheme.' + t for t in [
     'C02_assignCentres_ok_iff', 'C02_assignCentres_names', 'C02_assignCentres_error_iff',
     'C02_countGroups_declared', 'C02_distinctSets_card', 'C02_countDescs_declared',
-    'C02_remap_linear', 'C02_remap_order_independent', 'C02_getDescriptors_error_iff', 'C02_getDescriptors_value']]
+    'C02_remap_linear', 'C02_remap_order_independent', 'C02_getDescriptors_error_iff', 'C02_getDescriptors_value']] + [
+    'PGA.C02.' + t for t in ['C02_load_wf', 'C02_driver_computes_decompose', 'C02_toInput_declares', 'C02_decompose_declared',
+                             'C02_decompose_error_iff']]
 RULE = ('cases = (scheme, molecule): the nine shipped schemes and synthetic schemes derived from them (patterns dropped or '
         'duplicated, random chain-free remap tables with fractional coefficients) x fixed pools + grown molecules '
         '(gas C/H/O/N chains, branches, rings 3-9, fused/spiro/bridged, alkenes, alkynes, allenes, carbonyls, alternating C6 rings, '
         'radicals; adsorbates with 1-4 Pt bonds; out-of-vocabulary atoms for the failure clause). distinct = distinct '
         '(scheme, canonical SMILES); non-trivial = more than 2 heavy atoms or a failure case.')
-ASSUMPTIONS = ['A-graph: RDKit explicit-H Kekule graph of the input is the molecule; SSSR ring order as RDKit reports it',
-               'the match lists of the patterns are those of the real matcher (its own correctness is C08); smiles/smarts-based '
-               'descriptors are not modelled (no shipped scheme uses them; checked each run)']
-TRUSTED = ['modelled, not verified: _AssignCenterPattern, _AssignGroup, _AssignDescriptor, remaps, final dict merge (Scheme.py:148-246)',
-           'harness/lib_scheme.prepare re-implements the input normalisation and Benson C6 perception independently (Python)']
+ASSUMPTIONS = ['A-graph: RDKit explicit-H Kekule graph of the input (after the sanitisation steps the code requests, AddHs, Kekulize, '
+               'UNSPECIFIED->ZERO, GetSymmSSSR) is the molecule; SSSR ring order as RDKit reports it; re-checked per molecule '
+               '(ring information stable and consistent, AtomRings = GetSymmSSSR, neighbour order = bond order, Mol.wf, rings are bonded cycles)',
+               'A-cand (C08): RDKit\'s candidate enumeration = the model\'s own; the cap of 10 000 candidates was inactive on every compared case (measured, reported)',
+               'the parse trees are those of the implementation\'s parser (C09); scheme entries, order, names, remaps from the live scheme objects; '
+               'pattern texts captured by wrapping the name `Read` the Scheme module calls during GroupLibrary.Load',
+               'smiles/smarts-based descriptors are not modelled (no shipped scheme uses them; checked each run)']
+TRUSTED = ['modelled, not verified: GroupAdditivityScheme.Load (reading of the pattern texts), _aromatization_Benson, GetQueryMatches (C08 model), '
+           '_AssignCenterPattern, _AssignGroup, _AssignDescriptor, remaps, final dict merge (Scheme.py:110-407)',
+           'harness/lib_scheme.prepare re-implements the input normalisation (and, for the embedding oracle only, the Benson C6 perception) '
+           'independently in Python; harness/lib_embeds.py + lib_scheme.frag_of_ast are the embedding oracle']
 
 
 def kind_of(name):
@@ -36,6 +49,8 @@ def kind_of(name):
 def molecules(ctx, kind, n):
     rng = ctx.rng
     out = list(G.FIXED_GAS if kind == 'gas' else G.FIXED_SURFACE + G.FIXED_GAS[:12])
+    if ctx.thorough() and kind == 'gas':
+        out.append('C' * 100)       # 2 400 candidates of the sp3-carbon pattern (302 atoms): a candidate cap below that shows
     for _ in range(n):
         out.append(G.gen_smiles(rng, kind, rng.choice([3, 5, 8, 12] + ([18, 24] if ctx.thorough() else []))))
     for _ in range(max(2, n // 12)):
@@ -75,13 +90,35 @@ def synthetic(ctx, lib, mols):
     return GroupLibrary(s2, contents={}, uq_contents={}), mode
 
 
+PROBES = [('Probe:aromatic-atom', 'fragment a{aromatic C labeled c1}'),
+          ('Probe:nonaromatic-ring-atom', 'fragment a{nonaromatic C labeled c1 {in ring of size >2}}'),
+          ('Probe:aromatic-bond', 'fragment a{C labeled c1 C labeled c2 aromatic bond to c1}'),
+          ('Probe:ring-double-bond', 'fragment a{ringatom C labeled c1 ringatom C labeled c2 double bond to c1}'),
+          ('Probe:zero-order-bond', 'fragment a{$ labeled c1 $ labeled c2 partial bond to c1}')]
+
+
+def probe_scheme(lib):
+    """the shipped scheme plus correction descriptors that *observe* what the shipped patterns never read — the aromatic flag
+    of an atom, the kind of every ring bond, weak bonds — so that a change to the perception or normalisation that no shipped
+    pattern notices still changes a descriptor count (read through the Scheme module's own `Read`, hence recorded)"""
+    import pgradd.GroupAdd.Scheme as M
+    from pgradd.GroupAdd.Library import GroupLibrary
+    sch = lib.scheme
+    extra = [{'name': n, 'connectivity': M.Read(t)} for n, t in PROBES]
+    s2 = M.GroupAdditivityScheme(patterns=list(sch.patterns), pretreatment_rules=[], remaps=dict(sch.remaps),
+                                 other_descriptors=list(sch.other_descriptors) + extra, smiles_based_descriptors=[],
+                                 smarts_based_descriptors=[], include=[])
+    return GroupLibrary(s2, contents={}, uq_contents={})
+
+
 def to_frac(d):
     return {k: Fraction(v).limit_denominator(10 ** 9) if isinstance(v, float) else Fraction(v) for k, v in d.items()}
 
 
-def check_one(ctx, tag, lib, smi, batch):
+def check_one(ctx, tag, lib, smi, batch, full=None):
     impl = S.impl_descriptors(lib, smi)
     atoms = S.impl_atoms(lib) if 'ok' in impl else None
+    hook = S.hook_graph(lib) if 'ok' in impl else None
     mol = S.prepare(smi)
     if mol is None:
         ctx.count('unparsable')
@@ -104,6 +141,22 @@ def check_one(ctx, tag, lib, smi, batch):
                 if abs(float(impl['ok'].get(k, 0)) - float(spec['ok'].get(k, 0))) > 1e-9}
         ctx.violation('descriptors differ from the scheme file\'s declared decomposition', where,
                       {k: v[1] for k, v in diff.items()}, {k: v[0] for k, v in diff.items()})
+    # second oracle: every pattern read as the set of embeddings its text denotes (neither the implementation's reader nor its
+    # matcher nor RDKit's enumeration): what Lean proves `decompose` to be (C02_decompose_declared)
+    spec2 = S.declared_full(lib.scheme, smi)
+    if spec2 is not None and not impl.get('err', '').startswith('internal'):
+        ctx.count('oracle_embeddings')
+        if ('err' in impl) != ('err' in spec2):
+            ctx.violation('failure clause: the implementation and the declared decomposition (patterns as sets of embeddings) disagree on '
+                          'whether every atom is matched by exactly one centre pattern', where,
+                          spec2 if 'err' in spec2 else 'descriptors', impl if 'err' in impl else 'descriptors')
+        elif 'ok' in impl and not S.same_counts(impl['ok'], spec2['ok']):
+            diff = {k: (impl['ok'].get(k), float(spec2['ok'].get(k, 0))) for k in set(impl['ok']) | set(spec2['ok'])
+                    if abs(float(impl['ok'].get(k, 0)) - float(spec2['ok'].get(k, 0))) > 1e-9}
+            ctx.violation('descriptors differ from the scheme file\'s declared decomposition (patterns as sets of embeddings)', where,
+                          {k: v[1] for k, v in diff.items()}, {k: v[0] for k, v in diff.items()})
+    if full is not None and not impl.get('err', '').startswith('internal'):
+        full.add(lib, smi, impl, where, atoms, hook)
     batch.append((inp, impl, where))
     if atoms is not None and len(atoms) == inp['n']:
         a_inp = dict(inp, op='c02.assign')
@@ -138,6 +191,7 @@ def compare_batch(ctx, batch, remap_tables):
 def run(ctx):
     libs_ = S.load_schemes()
     batch = []
+    full = S.FullTie(ctx)
     for fname, rec in common.load_corpus('C02'):
         ctx.count('corpus')
         replay(ctx, rec)
@@ -147,7 +201,7 @@ def run(ctx):
             ctx.count('schemes_with_unmodelled_descriptors')
         mols = molecules(ctx, kind_of(name), ctx.n(110, 900))
         for smi in mols:
-            check_one(ctx, name, lib, smi, batch)
+            check_one(ctx, name, lib, smi, batch, full)
             if ctx.time_left() < 120:
                 break
         # synthetic schemes derived from this one
@@ -155,11 +209,20 @@ def run(ctx):
             sample = ctx.rng.sample(mols, min(len(mols), ctx.n(8, 20)))
             lib2, mode = synthetic(ctx, lib, sample)
             for smi in sample:
-                check_one(ctx, '%s~%s' % (name, mode), lib2, smi, batch)
+                check_one(ctx, '%s~%s' % (name, mode), lib2, smi, batch, full)
+        # the shipped scheme with probe descriptors, on the molecules that have rings or weak bonds
+        libp = probe_scheme(lib)
+        for smi in [m for m in mols if any(ch in m for ch in '12~')][:ctx.n(60, 400)]:
+            check_one(ctx, '%s~probe' % name, libp, smi, batch, full)
         if len(batch) > 4000:
             compare_batch(ctx, batch, None)
             batch = []
+        full.run()
     compare_batch(ctx, batch, None)
+    full.run()
+    ctx.extra.setdefault('coverage', {})['full_tie'] = (
+        'end-to-end model (c02.full_batch) run on every case, no size bound; largest candidate count of any pattern on any '
+        'compared molecule: %d (cap %d inactive on all compared cases)' % (getattr(full, 'maxraw', 0), S.FullTie.CAP))
 
 
 def replay(ctx, rec):
@@ -168,7 +231,8 @@ def replay(ctx, rec):
     libs_ = dict(S.load_schemes())
     name = inp['scheme'].split('~')[0]
     batch = []
-    check_one(ctx, name, libs_[name], inp['smiles'], batch)
+    lib = probe_scheme(libs_[name]) if inp['scheme'].endswith('~probe') else libs_[name]
+    check_one(ctx, inp['scheme'], lib, inp['smiles'], batch)
     if 'other_smiles' in inp:
         a = S.impl_descriptors(libs_[name], inp['smiles'])
         b = S.impl_descriptors(libs_[name], inp['other_smiles'])
@@ -177,12 +241,14 @@ def replay(ctx, rec):
     return len(ctx.violations) == before
 
 
-LEVEL_TEXT = ('Lean 4 theorems about the model of the decomposition logic above the matcher, for every molecule size, every list of '
-              'patterns and every match list: centre assignment succeeds exactly when every atom is the first atom of matches of '
-              'exactly one centre pattern and then names it by that pattern; group counts are the number of atoms whose centre and '
-              'neighbour peripheral multiset give that canonical name; correction descriptors count distinct atom sets; remaps of '
-              'chain-free tables equal the linear substitution whatever the key order. Tied to Scheme.py by a correspondence run on the '
-              'nine shipped and derived synthetic schemes with a graph normalised independently of the repository (per-atom names via a guarded hook).')
-LEVEL_NOTE = ('Trusted: Lean kernel, standard axioms, the correspondence harness, RDKit as graph provider (A-graph). The matcher is an input of '
-              'these theorems (its correctness is C08). Not modelled: smiles/smarts-based descriptors (unused by every shipped scheme; checked each run).')
+LEVEL_TEXT = ('Lean 4 theorems, for every scheme, molecule graph and size: (above the matcher, any match lists) centre assignment succeeds exactly when '
+              'every atom is the first atom of matches of exactly one centre pattern and then names it by that pattern; group counts are the number of '
+              'atoms whose centre and neighbour peripheral multiset give that canonical name; correction descriptors count distinct atom sets; remaps of '
+              'chain-free tables equal the linear substitution whatever the key order; (end to end, C02_decompose_declared / C02_decompose_error_iff) the '
+              'model decompose = Benson perception + reader + matcher + decomposition equals that declared decomposition with every pattern\'s matches being '
+              'exactly its embeddings (C08 plugged in). Tied to Scheme.py/MolQuery.py/MolQueryRead.py by a correspondence run on the nine shipped and derived '
+              'synthetic schemes from the raw graph and the pattern parse trees (per-atom names and aromatised graph via a guarded hook).')
+LEVEL_NOTE = ('Trusted: Lean kernel, standard axioms, the correspondence harness, RDKit as graph provider (A-graph) and candidate enumerator (A-cand), the parser (C09). '
+              'Explicit hypotheses of the end-to-end theorems: well-formed graph, no `*` suffix (FM1), candidate counts below the cap of 10 000 (F30), chain-free remaps; '
+              'all observed to hold on every compared case. Not modelled: smiles/smarts-based descriptors (unused by every shipped scheme; checked each run).')
 TECHNIQUE = 'Lean 4 proof over hand-written model + correspondence check (independent normalisation, per-atom hook) + declarative spec oracle'
